@@ -88,7 +88,8 @@ def run_tlc(module_path: str, cfg_path: Optional[str] = None, workers: int | str
     own = scratch is None
     scratch = scratch or tempfile.mkdtemp(prefix="verif-tlc-")
     meta = tempfile.mkdtemp(prefix="meta-", dir=scratch)
-    cmd = ["java", "-XX:+UseParallelGC", "-Xmx" + heap, "-Xss512m", "-DTLA-Library=" + SPECS, *jvm,
+    cmd = ["java", "-XX:+UseParallelGC", "-Xmx" + heap, "-Xss512m", "-DTLA-Library=" + SPECS,
+           "-Djava.io.tmpdir=" + meta, *jvm,   # TLC drops an empty tlc-<n> directory per run into the JVM temp dir
            "-cp", TLA_JAR + ":" + TLA_DEPS, "tlc2.TLC",
            "-workers", str(workers), "-metadir", meta, "-noGenerateSpecTE"]
     if cfg_path:
